@@ -174,8 +174,11 @@ class Check:
         ev = {'property_id': self.pid, 'tier': self.tier, 'seed': self.seed, 'level': level,
               'coverage': cov, 'assumptions': self.assumptions, 'wall_s': round(time.time() - self.t0, 3),
               'violations': len(self.violations)}
-        os.makedirs(EVIDENCE, exist_ok=True)
-        with open(os.path.join(EVIDENCE, self.pid + '.json'), 'w') as f:
+        # evidence is only (re)written for runs against the repository itself; runs against a scratch copy
+        # ($VERIF_REPO, used for seeded changes and self-tests) must not overwrite the committed evidence
+        evdir = EVIDENCE if os.path.realpath(source.REPO) == os.path.realpath('/repo') else os.path.join(OUT, 'evidence_scratch')
+        os.makedirs(evdir, exist_ok=True)
+        with open(os.path.join(evdir, self.pid + '.json'), 'w') as f:
             json.dump(ev, f, indent=1, default=str)
         for l in self.known_lines:
             print(l)
